@@ -649,6 +649,7 @@ pub fn atoms() -> Vec<MValue> {
         MValue::Str(s("plain")),
         MValue::Str(s("q\"b\\s\nl\tt")),
         MValue::Str(s("\u{e9}\u{2603}\u{1F600}")),
+        MValue::Str(s("cr\r\nlf \r alone \u{0} \u{7f} \u{2028} / \u{8}\u{c}")),
         MValue::Bool(true),
         MValue::Bool(false),
         MValue::Null,
